@@ -4,7 +4,7 @@ from pyvc.vc import Engine
 from pyvc.run import discharge, feasibility
 from pyvc import api
 from contracts.schema import SCHEMA
-import contracts.common
+import contracts.common, contracts.matlab_text
 import contracts.c05 as c05
 repo=Repo()
 e=Engine(repo,SCHEMA,api.CONTRACTS,api.SPECS)
